@@ -15,7 +15,9 @@ RICH = [KINDS[i % 7][:] for i in range(12)]
 for i, r in enumerate(RICH):
     if r[0] is not None:
         r[0] = r[0] + (i // 7) * 10
-MEMT = [[1, 'one'], [2, 'two'], [None, 'nil'], [5, 'five']]
+WIDE = [[-9223372036854775808, -2147483648, F(0.5), 'a', D('1970-01-01')], [9223372036854775807, 2147483647, F(2.0), 'b', D('2024-01-02')], [5, 1, None, 'b', D('2024-01-02')],
+        [-1, 0, F(1.5), None, D('0001-01-01')], [9223372036854775807, 2, F(-1.0), 'a', None]]
+MEMT = [[9223372036854775807, 'max'], [-9223372036854775808, 'min'], [1, 'one'], [2, 'two'], [None, 'nil'], [5, 'five']]
 
 
 def statements():
@@ -52,6 +54,13 @@ def statements():
     add('SELECT k, COUNT(*) AS c FROM p GROUP BY k HAVING COUNT(*) > 1', 'group-having')
     add('SELECT g, SUM(v) AS sv FROM p WHERE k IS NOT NULL GROUP BY g HAVING SUM(v) > 1.0', 'group-filter-having')
     add('SELECT k + g AS e, COUNT(*) AS c FROM p GROUP BY k + g', 'group-expr')
+    add('SELECT m.name, p.k FROM m JOIN p ON p.k = m.k', 'join-mem-probe-parquet')
+    add('SELECT p.k FROM p JOIN m ON p.k = m.k WHERE p.k > 3 AND p.k < 100', 'join-band-filter')
+    add('SELECT p.k FROM p JOIN m ON p.k = m.k WHERE p.g > 0 AND p.g < 100 AND p.k <> 7', 'join-band-filter-int32')
+    add('SELECT k FROM p WHERE NOT (2 > k)', 'scan-filter-not-literal-left')
+    add('SELECT COUNT(*), SUM(g) FROM p WHERE 2 > k OR g = 1', 'agg-filter-or-literal-left')
+    add('SELECT k FROM p WHERE NOT (k >= 2 AND g <= 1)', 'scan-filter-not-and')
+    add("SELECT COUNT(*) FROM p WHERE NOT (DATE '2024-01-02' <= d) OR k = 9", 'agg-filter-not-date-literal-left')
     add('SELECT a.k, b.s FROM p a JOIN p b ON a.k = b.k', 'self-join')
     add('SELECT a.k, COUNT(*) AS c FROM p a JOIN p b ON a.g = b.g GROUP BY a.k', 'self-join-agg')
     add('SELECT k FROM p WHERE k IN (SELECT k FROM p WHERE g = 1)', 'self-semi')
@@ -188,6 +197,9 @@ def run(rep):
     # null-free tables whose keys repeat although their value range is at least as wide as the row count
     contents.append([KINDS[0], KINDS[1], KINDS[5]])
     contents.append([KINDS[0], KINDS[1], KINDS[5], KINDS[6], KINDS[6]])
+    # key domains as wide as the type: range arithmetic on statistics and key domains must not overflow
+    contents.append(WIDE)
+    contents.append(WIDE[:2])
     if not quick:
         contents.append(RICH * 30)       # 360 rows
         contents.append(RICH * 2500)     # 30,000 rows: row-count gates open without hooks
